@@ -631,11 +631,15 @@ pub fn check_tree_dot(dot_text: &str, reference: &RAst) -> Result<(), String> {
     }
     let mut subs = HashSet::new();
     distinct_subterms(reference, &mut subs);
-    if g.nodes.len() != subs.len() {
+    // identical sub-terms MAY be one shared node (the export is read back "as a term with shared
+    // identical sub-terms"); whether they are shared is not prescribed. Every declared node is part of
+    // the term (one root, checked above), so only the count can be off.
+    if g.nodes.len() < subs.len() || g.nodes.len() > reference.size() {
         return Err(format!(
-            "{} nodes declared but the tree has {} distinct sub-terms (identical sub-terms must be one node)",
+            "{} nodes declared but the tree has {} distinct sub-terms and {} sub-term occurrences",
             g.nodes.len(),
-            subs.len()
+            subs.len(),
+            reference.size()
         ));
     }
     Ok(())
@@ -650,7 +654,7 @@ pub fn check_formula(text: &str, via_cli: bool) -> Check {
         let limit = (1usize << std::cmp::min(idents.len(), 12)) + 2;
         let (r, pf) = match front::run_text(text.as_bytes(), None, Some(limit)) {
             Run::Ok(r, pf) => (r, pf),
-            Run::ParseErr(e) => return Err(v(format!("well-formed formula rejected: {}", e))),
+            Run::ParseErr(e) => return Err(front::rejection(text, "well-formed formula", &e, &cj)),
             Run::ParsePanic(p) => return Err(v(format!("parser panicked: {}", p))),
             Run::EvalPanic(p, _) => return Err(v(format!("evaluation panicked: {}", p))),
         };
